@@ -583,6 +583,18 @@ func VH_Repeatable() {
 	for i := range slice0 {
 		vAssert(msgs[i] == slice0[i], "C15/callers-slice-rearranged-by-coalescing")
 	}
+	// resolving IDs of the event leaves the messages and a later coalescing as they are
+	d1r := d1
+	if e1 != nil && vParam("resolve", 1) != 0 {
+		ResolveIDsFromCaches(e1, NewUserCache(1000000000*60), NewGroupCache(1000000000*60))
+		for i, m := range msgs {
+			d, t, bad := vSnapshot(m)
+			if !vSameMap(d, before[i].d) || len(t) != len(before[i].t) || bad != before[i].bad {
+				intact = false
+			}
+		}
+		d1r = vEventDigest(e1) // (the names changed the event itself, as they should)
+	}
 	e2, err2 := CoalesceMessages(msgs)
 	same := (err1 == nil) == (err2 == nil) && vEventDigest(e2) == d1
 	if vKF("C15-coalesce-mutates-cached-data") {
@@ -595,7 +607,7 @@ func VH_Repeatable() {
 	other := vParseGroup(vGroups[(gi+1)%len(vGroups)], "78")
 	if other != nil {
 		CoalesceMessages(other)
-		vAssert(vEventDigest(e1) == d1, "C15/earlier-event-altered-by-a-later-coalesce")
+		vAssert(vEventDigest(e1) == d1r, "C15/earlier-event-altered-by-a-later-coalesce")
 	}
 }
 
